@@ -379,7 +379,7 @@ theorem tpm_core (env : Prog.Env) (o : AttObj) (h : Bytes) (res : Result)
           obtain ⟨hsig, hr⟩ := run_guardM _ _ _ _ hr
           rw [run_askBool] at hsig
           obtain ⟨-, hr⟩ := run_guard _ _ _ _ hr
-          obtain ⟨-, hr⟩ := run_guardM _ _ _ _ hr
+          obtain ⟨-, hr⟩ := run_guard _ _ _ _ hr
           obtain ⟨-, hr⟩ := run_guard _ _ _ _ hr
           obtain ⟨-, hr⟩ := run_guard _ _ _ _ hr
           exact ⟨der, c, rest, ciRaw, ci, ciEnc, rfl, (Option.some.inj hr).symm, rfl, hciv, hhash, hce, hsig⟩
